@@ -428,10 +428,16 @@ def extract_bernoulli():
         if isinstance(n, ast.For):
             res['loop'] = ast.unparse(n.iter)
             ifs = [s for s in n.body if isinstance(s, ast.If)]
-            if len(ifs) == 1 and len(n.body) == 1:
+            others = [s for s in n.body if not isinstance(s, ast.If) and not (isinstance(s, ast.Assign) and ast.unparse(s.value) == 'r1[i]')]
+            if len(ifs) == 1 and not others:
                 i = ifs[0]
                 if isinstance(i.test, ast.Compare) and len(i.test.ops) == 1:
                     l, rr = ast.unparse(i.test.left), ast.unparse(i.test.comparators[0])
+                    # a local holding r1[i]
+                    for a_ in n.body:
+                        if isinstance(a_, ast.Assign) and len(a_.targets) == 1 and isinstance(a_.targets[0], ast.Name) and ast.unparse(a_.value) == 'r1[i]':
+                            l = 'r1[i]' if l == a_.targets[0].id else l
+                            rr = 'r1[i]' if rr == a_.targets[0].id else rr
                     op = {ast.Lt: 'lt', ast.LtE: 'le', ast.Gt: 'gt', ast.GtE: 'ge'}.get(type(i.test.ops[0]), '?')
                     if (l, rr) == ('r1[i]', 'prob'):
                         res['op'] = op
@@ -441,6 +447,9 @@ def extract_bernoulli():
                     res['t'] = ast.unparse(i.body[0].value)
                 if len(i.orelse) == 1 and isinstance(i.orelse[0], ast.Assign) and ast.unparse(i.orelse[0].targets[0]) == 'bernoulli_array[i]':
                     res['f'] = ast.unparse(i.orelse[0].value)
+                elif not i.orelse and any(isinstance(a_, ast.Assign) and ast.unparse(a_.targets[0]) == 'bernoulli_array'
+                                          and ast.unparse(a_.value) in ('np.zeros(size)', 'np.zeros(size, dtype=float)') for a_ in f.body):
+                    res['f'] = '0'     # the array starts as zeros and the false branch leaves it alone
     return res
 
 
@@ -453,13 +462,32 @@ def extract_tournament():
     for n in ast.walk(f):
         if isinstance(n, ast.For) and n in f.body:
             res['rounds'] = ast.unparse(n.iter)
+            loc = {}
             for st in n.body:
                 if isinstance(st, ast.Assign) and isinstance(st.value, ast.ListComp) and len(st.value.generators) == 1:
                     res['draws'] = ast.unparse(st.value.generators[0].iter)
                     res['source'] = ast.unparse(st.value.elt)
+                # step = []; for _ in range(k): step.append(np.random.choice(fitness))
+                if isinstance(st, ast.For) and len(st.body) == 1 and isinstance(st.body[0], ast.Expr) and isinstance(st.body[0].value, ast.Call) \
+                        and ast.unparse(st.body[0].value.func) == 'step.append' and len(st.body[0].value.args) == 1 \
+                        and any(isinstance(p_, ast.Assign) and ast.unparse(p_) == 'step = []' for p_ in n.body):
+                    res['draws'] = ast.unparse(st.iter)
+                    res['source'] = ast.unparse(st.body[0].value.args[0])
+                if isinstance(st, ast.Assign) and len(st.targets) == 1 and isinstance(st.targets[0], ast.Name) and ast.unparse(st.value) == 'min(step)':
+                    loc[st.targets[0].id] = 'min(step)'
                 if isinstance(st, ast.Expr) and isinstance(st.value, ast.Call) and ast.unparse(st.value.func) == 'selected.append' \
                         and len(st.value.args) == 1:
-                    res['pick'] = ast.unparse(st.value.args[0])
+                    pk = st.value.args[0]
+                    class Sub(ast.NodeTransformer):
+                        def visit_Name(self, m):
+                            return ast.parse(loc[m.id], mode='eval').body if m.id in loc else m
+                    import copy as _copy
+                    res['pick'] = ast.unparse(Sub().visit(_copy.deepcopy(pk)))
+                    # a local holding the winner index
+                    if isinstance(pk, ast.Name):
+                        for p_ in n.body:
+                            if isinstance(p_, ast.Assign) and len(p_.targets) == 1 and ast.unparse(p_.targets[0]) == pk.id:
+                                res['pick'] = ast.unparse(Sub().visit(_copy.deepcopy(p_.value)))
     return res
 
 
@@ -473,6 +501,15 @@ def extract_weighted():
     inner = next((s for s in fn.body if isinstance(s, ast.FunctionDef)), None)
     if inner is None:
         return res
+    # a closure that only forwards to a method (`return self.m(x)`) is read through that method
+    fw = [s for s in inner.body if not (isinstance(s, ast.Expr) and isinstance(s.value, ast.Constant))]
+    if len(fw) == 1 and isinstance(fw[0], ast.Return) and isinstance(fw[0].value, ast.Call) and not fw[0].value.keywords \
+            and isinstance(fw[0].value.func, ast.Attribute) and ast.unparse(fw[0].value.func.value) == 'self' \
+            and [ast.unparse(a) for a in fw[0].value.args] == [inner.args.args[0].arg]:
+        m = method(cls, fw[0].value.func.attr)
+        if m is not None and len(m.args.args) == 2:
+            inner = ast.FunctionDef(name=m.name, args=ast.arguments(posonlyargs=[], args=[m.args.args[1]], kwonlyargs=[], kw_defaults=[], defaults=[]),
+                                    body=m.body, decorator_list=[])
     stmts = [s for s in inner.body if not (isinstance(s, ast.Expr) and isinstance(s.value, ast.Constant))]
     if len(stmts) == 3 and isinstance(stmts[0], ast.Assign) and isinstance(stmts[1], ast.For) and isinstance(stmts[2], ast.Return):
         res['init'] = ast.unparse(stmts[0])
